@@ -280,8 +280,16 @@ def _run_mapping(config, tmp_dir, tmp_result_dir, log):
 
     # ========= query marker cache =========
 
+    # without a scratch directory, keep the marker cache next to the
+    # result buffer (which run_mapping removes) rather than leaving it
+    # in the system's temporary directory
+    if tmp_dir is not None:
+        query_marker_dir = tmp_dir
+    else:
+        query_marker_dir = tmp_result_dir
+
     query_marker_tmp = pathlib.Path(
-        mkstemp_clean(dir=tmp_dir,
+        mkstemp_clean(dir=query_marker_dir,
                       prefix='query_marker_',
                       suffix='.h5'))
 
